@@ -455,6 +455,32 @@ TARGETS = [
                   self_fields={"offset": "st_offset", "left": "st_left"},
                   paths={"PackInfo::BLOCK_SIZE": "blockSize", "None": "(none, st_offset, st_left)"},
                   exprs={"Some(offset)": "(some offset, st_offset, st_left)"})),
+    dict(name="streamReadRequest", group="View", file="src/reader/byte_stream.rs", fn="read", let="max_len",
+         cfg=dict(params=[("rbegin", N), ("rend", N), ("cursor", N), ("bufLen", N)], ret=N, self_fields={"offset": "cursor"},
+                  exprs={"self.region.end()": "rend", "self.region.begin()": "rbegin", "buf.len()": "bufLen"})),
+    dict(name="fsLocatorLocate", group="Lookup", file="src/reader/locator.rs", fn="locate", after=r"impl PackLocatorTrait for FsLocator",
+         cfg=dict(params=[("isFile", "Bool"), ("openFile", "Outcome F"), ("openContainer", "F → Outcome C"), ("getPackReader", "C → Option R")],
+                  ret="Option R", outcome=True, stateful=False, implicit="{F C R : Type}",
+                  exprs={"self.base_dir.join(path)": "()", "path.is_file()": "isFile"},
+                  try_calls={"FileSource::open": "openFile", "super::jubako::open_as_container_pack": "openContainer {0}"},
+                  methods={"get_pack_reader": "(getPackReader {recv})"}, funcs={"Reader::from": "{0}"})),
+    # ---- reader: blind open of a file as a (possibly fake) container pack
+    dict(name="openAsContainerPack", group="Open", file="src/reader/jubako.rs", fn="open_as_container_pack",
+         cfg=dict(params=[("fileLen", N), ("unchecked", "Outcome PackHeader"), ("checked", "Outcome PackHeader"),
+                          ("tailHeader", "Outcome PackHeader"), ("cutReader", "Nat → Nat → Outcome R"),
+                          ("containerNew", "R → Outcome C"), ("fake", "R → Bytes → C")],
+                  ret="C", outcome=True, stateful=False, implicit="{R C : Type}",
+                  result_exprs={"reader.parse_block_unchecked_at(Offset::zero())": "unchecked",
+                                "reader.parse_block_at(Offset::zero())": "checked"},
+                  try_exprs={"end_reader.parse_block_at(Offset::zero())": "tailHeader"},
+                  try_methods={("reader", "cut"): "cutReader {0} {1}"},
+                  result_calls={"ContainerPack::new": "containerNew {0}"},
+                  funcs={"ContainerPack::new_fake": "(fake {0} {1})", "Offset::zero": "0"},
+                  exprs={"reader.size()": "fileLen"},
+                  methods={".magic": "({recv}).kind", ".file_size": "({recv}).packSize", ".uuid": "({recv}).uuid"},
+                  patterns={"ErrorKind::Version": "ErrKind.version", "PackKind::Container": "PackKind.container"},
+                  patterns_noargs=["ErrorKind::Version"],
+                  ignore_lets=["buffer_reader", "end_reader"], ignore_stmts=["reader.create_stream(", "buffer_reader.reverse("])),
 ]
 
 
@@ -653,7 +679,7 @@ def apply_enums(t):
     return "\n".join(decls)
 
 
-GROUP_IMPORTS = {"Parse": ["JubakoModel.Model.DirLayout", "JubakoModel.Generated.FuncsBytes"], "Entry": ["JubakoModel.Generated.FuncsBytes", "JubakoModel.Generated.FuncsDir"], "Stats": ["JubakoModel.Generated.FuncsBytes", "JubakoModel.Generated.FuncsDir"], "Lookup": [], "Fs": ["JubakoModel.Model.BasicCreatorFs"], "Sync": ["JubakoModel.Model.SyncVec"], "Pipe": ["JubakoModel.Model.Pipeline"], "Proto": ["JubakoModel.Model.FileCursor"], "Search": ["JubakoModel.Generated.FuncsBytes"], "Content": ["JubakoModel.Generated.FuncsBytes"], "Dir": ["JubakoModel.Generated.FuncsBytes", "JubakoModel.Model.Bytes"]}
+GROUP_IMPORTS = {"Open": ["JubakoModel.Model.Pack"], "Parse": ["JubakoModel.Model.DirLayout", "JubakoModel.Generated.FuncsBytes"], "Entry": ["JubakoModel.Generated.FuncsBytes", "JubakoModel.Generated.FuncsDir"], "Stats": ["JubakoModel.Generated.FuncsBytes", "JubakoModel.Generated.FuncsDir"], "Lookup": ["JubakoModel.Model.Bytes"], "Fs": ["JubakoModel.Model.BasicCreatorFs"], "Sync": ["JubakoModel.Model.SyncVec"], "Pipe": ["JubakoModel.Model.Pipeline"], "Proto": ["JubakoModel.Model.FileCursor"], "Search": ["JubakoModel.Generated.FuncsBytes"], "Content": ["JubakoModel.Generated.FuncsBytes"], "Dir": ["JubakoModel.Generated.FuncsBytes", "JubakoModel.Model.Bytes"]}
 GROUP_PREAMBLE = {"Parse": """/- semantics of the effects of the parsing code (trusted, DESIGN.md §12.7): `unwrap()` of an `Err` / `None` is a
    panic; `read_isized(n)` reads `n` bytes little-endian and sign-extends (`LE::read_int`) -/
 def unwrapped {α : Type} : Outcome α → Outcome α
@@ -671,7 +697,7 @@ def entryLEs (e : Bytes) (off n : Nat) : Outcome Int :=
   (entryLE e off n).bind fun v => .ok (signExtend v n)
 
 """}
-GROUP_ORDER = ["Bytes", "Content", "Dir", "Order", "Search", "View", "Check", "Proto", "Pipe", "Sync", "Fs", "Lookup", "Stats", "Entry", "Parse"]
+GROUP_ORDER = ["Bytes", "Content", "Dir", "Order", "Search", "View", "Check", "Proto", "Pipe", "Sync", "Fs", "Lookup", "Stats", "Entry", "Parse", "Open"]
 
 
 def main():
